@@ -121,8 +121,11 @@ class InotifyEmitter(EventEmitter):
         )
 
     def on_thread_stop(self) -> None:
-        if self._inotify:
-            self._inotify.close()
+        # stop() may run in several threads at once (the application's and, when the
+        # watched root is deleted, the emitter's own): read the attribute once.
+        inotify = self._inotify
+        if inotify:
+            inotify.close()
             self._inotify = None
 
     def queue_events(self, timeout: float, *, full_events: bool = False) -> None:
